@@ -43,6 +43,10 @@ var badForms = map[string]string{
 	"empty_operand":          "add t0, , t2",
 	"register_as_immediate":  "addi t0, t1, t2",
 	"lone_comma":             "add ,",
+	"huge_offset":            "lw t0, 4294967300(t1)",
+	"huge_store_offset":      "sb t1, 4294967296(t0)",
+	"huge_addi":              "addi t0, t1, 4294967297",
+	"huge_negative":          "li t0, -4294967297",
 }
 
 var silentForms = map[string]string{
@@ -115,6 +119,8 @@ func decorate(i Ins, deco string) string {
 		return "\t" + join()
 	case "comment":
 		return join() + " # trailing, comment with (parens) and a : colon"
+	case "commentcolon":
+		return join() + "   # first step:"
 	case "upper":
 		upper()
 		return join()
